@@ -116,13 +116,19 @@ def call(fn, x, state, kwargs):
     return ("OK", keys, M)
 
 
+UNSPEC = "unspecified"
+
+
 def want_matrix(rows, ncols):
-    """rows: list of (list of Fractions | None) -> (float matrix with zero rows where NaN is expected, expect_nan mask)"""
+    """rows: list of (list of Fractions | None | UNSPEC) -> (float matrix with zero rows where NaN is expected or
+    nothing is demanded, mask: 1 = NaN row expected, 2 = unspecified row)"""
     W = np.zeros((len(rows), ncols))
-    nanrow = np.zeros(len(rows), dtype=bool)
+    nanrow = np.zeros(len(rows), dtype=np.int8)
     for r, row in enumerate(rows):
         if row is None:
-            nanrow[r] = True
+            nanrow[r] = 1
+        elif row is UNSPEC:
+            nanrow[r] = 2
         else:
             W[r] = [float(a) for a in row]
     return W, nanrow
@@ -136,7 +142,7 @@ def bad_rows(M, W, nanrow):
     scale = np.maximum(1.0, np.abs(W).max(axis=1))
     with np.errstate(invalid="ignore"):
         okv = (np.abs(M - W) <= TOL * scale[:, None]).all(axis=1)
-    return np.nonzero(np.where(nanrow, ~isn, ~okv))[0].tolist()
+    return np.nonzero(np.where(nanrow == 1, ~isn, ~okv) & (nanrow != 2))[0].tolist()
 
 
 def state_digest(state):
@@ -174,7 +180,10 @@ _FOLLOW = {}  # (transform, state digest, arguments) -> findings of the follow-u
 
 def emit(col, key, detail, findings):
     for suffix, extra, sig in findings:
-        col.violation(key + suffix, dict(detail, **extra), sig=sig)
+        if suffix is None:
+            col.count(sig)
+        else:
+            col.violation(key + suffix, dict(detail, **extra), sig=sig)
 
 
 # ---------------------------------------------------------------------------
@@ -197,6 +206,14 @@ def bs_want_row(t, tk, degree, extrap, icpt, v):
 
 
 def _bs_want_row(t, degree, lb, ub, extrap, icpt, v):
+    cut = (lambda row: list(row) if icpt else list(row[1:]))
+    if t[-degree - 2] == t[-1] and (v == ub or (v > ub and extrap == "clip")):
+        # a df-quantile knot coincides with the upper bound, so the knot interval that ends at the boundary is empty.
+        # "Right boundary closed" can then be read as closing the last NON-EMPTY interval (limit from the left) or the
+        # last interval (R's splineDesign); the documentation does not say, so both rows are accepted.
+        a = cut(R.bspline_row(t, degree, ub))
+        b = cut(R.bspline_row_at_upper_end_closing_last_interval(t, degree))
+        return a if a == b else ("either", a, b)
     if lb <= v <= ub:
         row = R.bspline_row(t, degree, v)
     elif extrap == "clip":
@@ -209,7 +226,7 @@ def _bs_want_row(t, degree, lb, ub, extrap, icpt, v):
         row = R.bspline_row_extended(t, degree, v)
     else:
         raise AssertionError("raise mode with an out-of-range point")
-    return list(row) if icpt else list(row[1:])
+    return cut(row)
 
 
 _BS_WANT = {}
@@ -228,21 +245,29 @@ def bs_want(t, degree, extrap, icpt, xs):
             _BS_WANT.clear()
         lb, ub = tk[0], tk[-1]
         ncols = len(t) - degree - 1 - (0 if icpt else 1)
-        W, nanrow = want_matrix([bs_want_row(t, tk, degree, extrap, icpt, v) for v in xs], ncols)
-        inside = np.array([v is not None and lb <= float(v) <= ub for v in xs], dtype=bool)
-        _BS_WANT[k] = (W, nanrow, inside)
+        rows = [bs_want_row(t, tk, degree, extrap, icpt, v) for v in xs]
+        alts = {r: [np.array([float(a) for a in alt]) for alt in row[1:]] for r, row in enumerate(rows) if isinstance(row, tuple)}
+        W, nanrow = want_matrix([UNSPEC if isinstance(row, tuple) else row for row in rows], ncols)
+        inside = np.array([v is not None and lb <= float(v) <= ub for v in xs], dtype=bool) & (nanrow == 0)
+        _BS_WANT[k] = (W, nanrow, inside, alts)
     return _BS_WANT[k]
 
 
 def bs_rows_findings(M, x, t, degree, extrap, icpt, phase):
     """compare every row; at most one finding per (phase, failure class), carrying the first failing point"""
-    W, nanrow, inside = bs_want(t, degree, extrap, icpt, tuple(x))
+    W, nanrow, inside, alts = bs_want(t, degree, extrap, icpt, tuple(x))
     out, seen = [], set()
-    for r in bad_rows(M, W, nanrow):
+    bad = bad_rows(M, W, nanrow)
+    for r, cands in alts.items():  # rows where either of two readings is accepted
+        if M.shape[1] and not any(np.all(np.abs(M[r] - w) <= TOL) for w in cands):
+            bad.append(r)
+            W = W.copy()
+            W[r] = cands[0]
+    for r in sorted(bad):
         v = x[r]
         if v is None:
             sig = "bs-null-row-not-nan"
-        elif inside[r]:
+        elif inside[r] or (r in alts and float(v) == float(t[-1])):
             sig = "bs-value"
         else:
             sig = {"clip": "bs-clip-row", "na": "bs-na-row-not-nan", "zero": "bs-zero-row", "extend": "bs-extend-row"}[extrap]
@@ -253,7 +278,9 @@ def bs_rows_findings(M, x, t, degree, extrap, icpt, phase):
         seen.add(sig)
         out.append((" :: %s point=%s" % (phase, show(v)),
                     {"phase": phase, "point": fl(v), "got_row": M[r].tolist(),
-                     "want_row": None if nanrow[r] else W[r].tolist()}, sig))
+                     "want_row": None if nanrow[r] == 1 else W[r].tolist()}, sig))
+    if alts:
+        out.append((None, None, "unspecified:closure-at-upper-bound-with-coincident-knot(either reading accepted)"))
     if M.shape[1] and inside.any():
         ins = M[inside]
         with np.errstate(invalid="ignore"):
@@ -266,31 +293,49 @@ def bs_rows_findings(M, x, t, degree, extrap, icpt, phase):
     return out
 
 
+class LazyRepro(dict):
+    """detail dictionary of a follow-up call; the (long) source strings are only built when a finding is reported"""
+
+    def __init__(self, fname, x2, kw_src):
+        super().__init__()
+        self._args = (fname, x2, kw_src)
+
+    def build(self, **extra):
+        fname, x2, kw_src = self._args
+        d = {"x2": [fl(v) for v in x2], "reuse": "print(dict(%s(numpy.array(%s), %s, _state=st)))" % (fname, pyx(x2), kw_src)}
+        d.update(extra)
+        return d
+
+
 def bs_followups(state, kwargs, kw_src, t, degree, extrap, icpt, want_keys, grid):
     """re-use the recorded state on follow-up vectors; returns findings (suffix, detail, sig)"""
-    lbr, ubr = t[0], t[-1]
+    lbr, ubr = float(t[0]), float(t[-1])
     ncols = len(want_keys)
     out = []
-    for name, x2 in [("all", grid), ("in-range", [v for v in grid if v is None or lbr <= v <= ubr])]:
+    inrange = [v for v in grid if v is None or lbr <= v <= ubr]
+    # "all" = the whole grid (out-of-range points and a null included); "in-range" covers the branch taken when no
+    # value is out of range (and is the only vector that raise mode accepts); extend mode has no such branch
+    follow = [("all", grid)] + ([("in-range", inrange)] if extrap != "extend" else [])
+    for name, x2 in follow:
         st = copy.deepcopy(state)
         res = call(BS, x2, st, kwargs)
         phase = "reuse(%s)" % name
-        d2 = {"x2": [fl(v) for v in x2], "reuse": "print(dict(bs(numpy.array(%s), %s, _state=st)))" % (pyx(x2), kw_src)}
-        has_oor = any(v is not None and not (lbr <= v <= ubr) for v in x2)
+        d2 = LazyRepro("bs", x2, kw_src)
+        has_oor = len(x2) != len(inrange)
         if not states_equal(st, state):
-            out.append((" :: %s state" % phase, dict(d2, before=repr(state), after=repr(st)), "bs-state-mutated-on-reuse"))
+            out.append((" :: %s state" % phase, d2.build(before=repr(state), after=repr(st)), "bs-state-mutated-on-reuse"))
         if res[0] == "ESCAPE":
-            out.append((" :: %s" % phase, dict(d2, error=res[1]), "bs-crash"))
+            out.append((" :: %s" % phase, d2.build(error=res[1]), "bs-crash"))
         elif extrap == "raise" and has_oor:
             if res[0] != "ValueError":
-                out.append((" :: %s" % phase, dict(d2, expected="ValueError (out-of-range value)"), "bs-missing-error"))
+                out.append((" :: %s" % phase, d2.build(expected="ValueError (out-of-range value)"), "bs-missing-error"))
         elif res[0] == "ValueError":
-            out.append((" :: %s" % phase, dict(d2, error=res[1]), "bs-unexpected-error"))
+            out.append((" :: %s" % phase, d2.build(error=res[1]), "bs-unexpected-error"))
         elif list(res[1]) != want_keys or res[2].shape != (len(x2), ncols):
-            out.append((" :: %s columns" % phase, dict(d2, got_keys=list(res[1]), want_keys=want_keys), "bs-columns"))
+            out.append((" :: %s columns" % phase, d2.build(got_keys=list(res[1]), want_keys=want_keys), "bs-columns"))
         else:
             for suffix, extra, sig in bs_rows_findings(res[2], x2, t, degree, extrap, icpt, phase):
-                out.append((suffix, dict(d2, **extra), sig))
+                out.append((suffix, None if suffix is None else d2.build(**extra), sig))
     return out
 
 
@@ -298,9 +343,9 @@ def drv_bs(c, ctx, col):
     degree = c.pick(ctx["degrees"])
     extrap = c.pick(EXTRAP)
     icpt = c.flag()
-    bmode = c.pick(ctx["bounds"])  # "default" | ("both", lo, hi) | ("lower", lo) | ("upper", hi)
+    bmode, max_len = c.pick(ctx["bounds"])  # "default" | ("both", lo, hi) | ("lower", lo) | ("upper", hi)
     symbols = SYM_DEFAULT if bmode == "default" else SYM_OOR
-    x = choose_multiset(c, symbols, ctx["max_len"] if bmode == "default" else ctx["max_len_explicit"])
+    x = choose_multiset(c, symbols, max_len)
     vals = [v for v in x if v is not None]
     if not vals:
         raise Skip()
@@ -497,28 +542,28 @@ def cubic_rows_findings(M, x, t, cyclic, extrap, Q, phase, small):
 
 
 def cubic_call_follow(fn, state, kwargs, kw_src, t, extrap, want_keys, name, x2):
-    """one follow-up call on a copy of the recorded state -> (matrix | 'raised' | None, findings)"""
-    lbr, ubr = t[0], t[-1]
+    """one follow-up call on a copy of the recorded state -> (matrix | 'raised' | None, findings, lazy detail)"""
+    lbr, ubr = float(t[0]), float(t[-1])
     st = copy.deepcopy(state)
     res = call(fn, x2, st, kwargs)
     phase = "reuse(%s)" % name
-    d2 = {"x2": [fl(v) for v in x2], "reuse": "print(dict(f(numpy.array(%s), %s, _state=st)))" % (pyx(x2), kw_src)}
+    d2 = LazyRepro("f", x2, kw_src)
     out = []
     if not states_equal(st, state):
-        out.append((" :: %s state" % phase, dict(d2, before=repr(state), after=repr(st)), "cubic-state-mutated-on-reuse"))
+        out.append((" :: %s state" % phase, d2.build(before=repr(state), after=repr(st)), "cubic-state-mutated-on-reuse"))
     has_oor = any(v is not None and not (lbr <= v <= ubr) for v in x2)
     if res[0] == "ESCAPE":
-        out.append((" :: %s" % phase, dict(d2, error=res[1]), "cubic-crash"))
+        out.append((" :: %s" % phase, d2.build(error=res[1]), "cubic-crash"))
         return None, out, d2
     if extrap == "raise" and has_oor:
         if res[0] != "ValueError":
-            out.append((" :: %s" % phase, dict(d2, expected="ValueError (out-of-range value)"), "cubic-missing-error"))
+            out.append((" :: %s" % phase, d2.build(expected="ValueError (out-of-range value)"), "cubic-missing-error"))
         return "raised", out, d2
     if res[0] == "ValueError":
-        out.append((" :: %s" % phase, dict(d2, error=res[1]), "cubic-unexpected-error"))
+        out.append((" :: %s" % phase, d2.build(error=res[1]), "cubic-unexpected-error"))
         return None, out, d2
     if list(res[1]) != want_keys or res[2].shape != (len(x2), len(want_keys)):
-        out.append((" :: %s columns" % phase, dict(d2, got_keys=list(res[1]), want_keys=want_keys), "cubic-columns"))
+        out.append((" :: %s columns" % phase, d2.build(got_keys=list(res[1]), want_keys=want_keys), "cubic-columns"))
         return None, out, d2
     return res[2], out, d2
 
@@ -527,10 +572,10 @@ def drv_cubic(c, ctx, col):
     kind = c.pick(ctx["kinds"])
     cons = c.pick([None, "center"])
     extrap = c.pick(EXTRAP)
-    bmode = c.pick(ctx["bounds"])
+    bmode, max_len = c.pick(ctx["bounds"])
     cyclic = kind == "cc"
     symbols = SYM_DEFAULT if bmode == "default" else SYM_OOR
-    x = choose_multiset(c, symbols, ctx["max_len"] if bmode == "default" else ctx["max_len_explicit"])
+    x = choose_multiset(c, symbols, max_len)
     vals = [v for v in x if v is not None]
     if not vals:
         raise Skip()
@@ -626,43 +671,60 @@ def drv_cubic(c, ctx, col):
         col.violation(key + " :: columns", dict(detail, got_keys=list(keys), want_keys=want_keys), sig="cubic-columns")
         return
 
-    # ---- the constraint map (constrained columns expressed in the cardinal basis) -------------------------
-    Q = None
-    vkey = (kind, state_digest(state), cons, extrap)
-    if cons:
+    # ---- re-use of the state: ONE follow-up vector = the recorded knots followed by the grid --------------------
+    # (raise mode: the in-range part of the grid, plus a second call with the whole grid that must raise).
+    # With a constraint the rows at the knots ARE the map Q from the cardinal basis to the constrained columns
+    # (the free basis is the identity at the knots), so the follow-up is evaluated before the training rows.
+    if cons and not np.all(np.isfinite(np.asarray(state["constraints"], dtype=float))):
         # Docstring: the centering constraint is computed from the input data.  Nulls (and, with 'na', out-of-range
         # values, which "are set to nan") are rows that the materializer later drops: the constraint must not be
         # poisoned by them.
-        if not np.all(np.isfinite(np.asarray(state["constraints"], dtype=float))):
-            if has_null or (extrap == "na" and oor):
-                col.violation(key + " :: centering constraint is NaN", dict(detail, constraints=repr(state["constraints"]),
-                                                                           got=M.tolist()),
-                              sig="cubic-center-nan-poisons-all-rows")
-            else:
-                col.violation(key + " :: centering constraint is NaN", dict(detail, constraints=repr(state["constraints"])),
-                              sig="cubic-center-constraint-not-finite")
-            return
-        # cardinal basis => the rows of the constrained basis at the knots ARE the map Q (free basis = I at the knots)
-        qkey = ("Q",) + vkey
-        if qkey not in _FOLLOW:
-            kn = list(t[:-1]) if cyclic else list(t)
-            MQ, fnd, _ = cubic_call_follow(fn, state, kwargs, kw_src, t, extrap, want_keys, "knots", kn)
-            _FOLLOW[qkey] = (MQ, fnd)
-        MQ, fnd = _FOLLOW[qkey]
-        emit(col, key, detail, fnd)
-        if MQ is None or isinstance(MQ, str):
-            return
-        Q = MQ
-        if not np.all(np.isfinite(Q)) or np.linalg.matrix_rank(Q, tol=1e-8) != ncols:
-            col.violation(key + " :: constrained basis at the knots", dict(detail, at_knots=Q.tolist()),
-                          sig="cubic-center-rank")
-            return
-        # zero column means on the training data <=> (mean of the free rows) . Q == 0
+        if has_null or (extrap == "na" and oor):
+            col.violation(key + " :: centering constraint is NaN", dict(detail, constraints=repr(state["constraints"]),
+                                                                       got=M.tolist()),
+                          sig="cubic-center-nan-poisons-all-rows")
+        else:
+            col.violation(key + " :: centering constraint is NaN", dict(detail, constraints=repr(state["constraints"])),
+                          sig="cubic-center-constraint-not-finite")
+        return
+    if not cons and state["constraints"] is not None:
+        col.violation(key + " :: state constraints", dict(detail, state=repr(state)), sig="cubic-state-keys")
+        return
+    vkey = (kind, state_digest(state), cons, extrap)
+    if vkey not in _FOLLOW:
+        grid = ctx["followup_df"] if what == "df" else ctx["followup"]
+        lbf, ubf = float(t[0]), float(t[-1])
+        kn = list(t)
+        x2 = kn + ([v for v in grid if v is None or lbf <= v <= ubf] if extrap == "raise" else grid)
+        M2, fnd, d2 = cubic_call_follow(fn, state, kwargs, kw_src, t, extrap, want_keys, "knots+grid", x2)
+        Qm = None
+        if M2 is not None and not isinstance(M2, str):
+            if cons:
+                Qm = M2[:nfree]
+                if not np.all(np.isfinite(Qm)) or np.linalg.matrix_rank(Qm, tol=1e-8) != ncols:
+                    fnd.append((" :: constrained basis at the knots", {"at_knots": Qm.tolist()}, "cubic-center-rank" + small))
+                    Qm = None
+            if not cons or Qm is not None:
+                for suffix, extra, sig in cubic_rows_findings(M2, x2, t, cyclic, extrap, Qm, "reuse(knots+grid)", small):
+                    fnd.append((suffix, d2.build(**extra), sig))
+        if extrap == "raise":
+            _, f3, _ = cubic_call_follow(fn, state, kwargs, kw_src, t, extrap, want_keys, "all", grid)
+            fnd += f3
+        _FOLLOW[vkey] = (Qm, fnd, M2 is not None and not isinstance(M2, str))
+    else:
+        col.count("cubic-followup-result-shared-with-identical-state")
+    Q, fnd, usable = _FOLLOW[vkey]
+    emit(col, key, detail, fnd)
+    if not usable or (cons and Q is None):
+        return
+
+    # ---- centering: zero column means on the training data <=> (mean of the free training rows) . Q == 0 ---------
+    if cons:
         if extrap == "zero" and oor:
             col.count("unspecified:centering-with-zeroed-out-of-range-training-rows")
         else:
             W, nanrow, _ = cubic_want(t, cyclic, extrap, tuple(x))
-            live = ~nanrow
+            live = nanrow == 0
             rows = [cubic_free_row(t, cyclic, extrap, v) for v in x]
             rows = [r for r in rows if r is not None]
             cref = [sum(r[i] for r in rows) / len(rows) for i in range(nfree)]
@@ -673,31 +735,89 @@ def drv_cubic(c, ctx, col):
                                                                                  reference_mean_times_Q=resid.tolist()),
                               sig="cubic-center-nonzero-mean" + small)
                 return
-    elif state["constraints"] is not None:
-        col.violation(key + " :: state constraints", dict(detail, state=repr(state)), sig="cubic-state-keys")
-        return
 
     # ---- values on the training vector -------------------------------------
     emit(col, key, detail, cubic_rows_findings(M, x, t, cyclic, extrap, Q, "train", small))
 
-    # ---- re-use of the state on follow-up vectors ---------------------------
-    if vkey not in _FOLLOW:
-        grid = ctx["followup_df"] if what == "df" else ctx["followup"]
-        follow = [("all", grid), ("in-range", [v for v in grid if v is None or t[0] <= v <= t[-1]])]
-        if not cons:
-            follow.append(("knots", list(t)))
-        fnd = []
-        for name, x2 in follow:
-            M2, f2, d2 = cubic_call_follow(fn, state, kwargs, kw_src, t, extrap, want_keys, name, x2)
-            fnd += f2
-            if M2 is None or isinstance(M2, str):
-                continue
-            for suffix, extra, sig in cubic_rows_findings(M2, x2, t, cyclic, extrap, Q, "reuse(%s)" % name, small):
-                fnd.append((suffix, dict(d2, **extra), sig))
-        _FOLLOW[vkey] = fnd
-    else:
-        col.count("cubic-followup-result-shared-with-identical-state")
-    emit(col, key, detail, _FOLLOW[vkey])
+
+# ---------------------------------------------------------------------------
+# the same transforms reached through a formula: model_matrix(...) and ModelSpec re-use (differential)
+
+FORMULA_TERMS = [
+    ("bs", {"degree": 0, "knots": [1.0]}), ("bs", {"degree": 1, "df": 3}), ("bs", {"degree": 3, "df": 5, "include_intercept": True}),
+    ("bs", {"degree": 2, "knots": [1.0, 1.5], "lower_bound": 0, "upper_bound": 4}),
+    ("cr", {"df": 3}), ("cs", {"df": 4, "constraints": "center"}), ("cr", {"knots": [1.0], "lower_bound": 0.0, "upper_bound": 4.0}),
+    ("cc", {"df": 3}), ("cc", {"df": 3, "constraints": "center"}),
+]
+
+
+def drv_formula(c, ctx, col):
+    import pandas as pd
+    from formulaic import model_matrix
+
+    alias, kw = c.pick(FORMULA_TERMS)
+    extrap = c.pick(EXTRAP)
+    explicit = "lower_bound" in kw
+    x = choose_multiset(c, SYM_OOR if explicit else SYM_DEFAULT, ctx["max_len"])
+    vals = [v for v in x if v is not None]
+    if len(set(v for v in vals if 0 <= v <= 4)) < 2:
+        raise Skip()
+    kwargs = dict(kw, extrapolation=extrap)
+    term = "%s(x, %s)" % (alias, ", ".join("%s=%r" % kv for kv in kwargs.items()))
+    key = "formula :: %r x=%s" % (term, showx(x))
+    detail = {"formula": term + " - 1", "x": [fl(v) for v in x],
+              "repro": "import pandas, numpy; from formulaic import model_matrix; m = model_matrix(%r, pandas.DataFrame({'x': %s})); "
+                       "print(m, m.model_spec.transform_state)" % (term + " - 1", pyx(x))}
+    col.sample({"formula": term + " - 1", "x": showx(x)})
+    fn = TRANSFORMS[alias]
+    st = {}
+    direct = call(fn, x, st, kwargs)
+    try:
+        with np.errstate(all="ignore"):
+            mm = model_matrix(term + " - 1", pd.DataFrame({"x": [fl(v) for v in x]}))
+        got = ("OK", mm)
+    except Exception as e:  # noqa  (FactorEvaluationError wraps the transform's error)
+        got = ("ERR", "%s: %s" % (type(e).__name__, str(e)[:160]))
+    if direct[0] != "OK" or got[0] != "OK":
+        if (direct[0] == "OK") != (got[0] == "OK"):
+            col.violation(key + " :: error", dict(detail, direct=direct[0:2] if direct[0] != "OK" else "OK", formula_path=got[1] if got[0] != "OK" else "OK"),
+                          sig="formula-path-differs-error")
+        else:
+            col.count("both-paths-reject")
+        return
+    col.interesting()
+    _, keys, D = direct
+    kept = [i for i in range(len(x)) if not np.isnan(D[i]).any()]
+    A = np.asarray(mm, dtype=float)
+    if list(mm.index) != kept or A.shape != (len(kept), D.shape[1]) or not np.allclose(A, D[kept], rtol=0, atol=1e-12):
+        col.violation(key + " :: values", dict(detail, formula_path=A.tolist(), rows=list(mm.index), direct=D.tolist()),
+                      sig="formula-path-differs")
+        return
+    ts = mm.model_spec.transform_state
+    if list(ts) != [term] or not states_equal(ts[term], st):
+        col.violation(key + " :: transform_state", dict(detail, transform_state=repr(ts), direct_state=repr(st)),
+                      sig="formula-path-state-differs")
+        return
+    grid = [v for v in COARSE if v is not None and (extrap != "raise" or float(st["lower_bound"]) <= v <= float(st["upper_bound"]))]
+    snap = copy.deepcopy(st)
+    d2 = call(fn, grid, st, kwargs)
+    try:
+        with np.errstate(all="ignore"):
+            m2 = mm.model_spec.get_model_matrix(pd.DataFrame({"x": [fl(v) for v in grid]}))
+        g2 = ("OK", m2)
+    except Exception as e:  # noqa
+        g2 = ("ERR", "%s: %s" % (type(e).__name__, str(e)[:160]))
+    if d2[0] != "OK" or g2[0] != "OK":
+        col.violation(key + " :: reuse error", dict(detail, direct=d2[0:2] if d2[0] != "OK" else "OK", formula_path=g2[1] if g2[0] != "OK" else "OK"),
+                      sig="formula-path-differs-error")
+        return
+    D2 = d2[2]
+    kept2 = [i for i in range(len(grid)) if not np.isnan(D2[i]).any()]
+    A2 = np.asarray(g2[1], dtype=float)
+    if (list(g2[1].index) != kept2 or A2.shape != (len(kept2), D2.shape[1]) or not np.allclose(A2, D2[kept2], rtol=0, atol=1e-12)
+            or not states_equal(mm.model_spec.transform_state[term], snap)):
+        col.violation(key + " :: reuse values", dict(detail, new_x=[fl(v) for v in grid], formula_path=A2.tolist(),
+                                                     rows=list(g2[1].index), direct=D2.tolist()), sig="formula-path-differs")
 
 
 # ---------------------------------------------------------------------------
@@ -713,48 +833,50 @@ def subchecks(tier, seed):
     both = ("both", 0, 4)
     narrow = ("both", F(1, 2), 3)
     degs = [0, 1, 2, 3, 4, 5]
+    # (bounds mode, maximal length of the training vector) per sub-check
     if quick:
-        L = {"bs-knots": (3, 2), "bs-df": (4, 3), "cubic": (3, 3)}
-        bnd = {"bs-knots": ["default", both], "bs-df": ["default", both], "cubic": ["default", both]}
-        kinds, dfs = ["cr", "cc"], [3, 4, 5]
+        bnd = {"bs-knots": [("default", 3), (both, 2)], "bs-df": [("default", 4), (both, 2)],
+               "cubic": [("default", 3), (both, 2)]}
+        dfs, fl_len = [3, 4, 5], 2
     else:
-        L = {"bs-knots": (4, 4), "bs-df": (5, 5), "cubic": (4, 4)}
-        bnd = {"bs-knots": ["default", both, narrow, ("lower", 0), ("upper", 4)], "bs-df": ["default", both, narrow],
-               "cubic": ["default", both, narrow]}
-        kinds, dfs = ["cr", "cs", "cc"], [2, 3, 4, 5, 6]
+        bnd = {"bs-knots": [("default", 4), (both, 3), (narrow, 3), (("lower", 0), 3), (("upper", 4), 3)],
+               "bs-df": [("default", 5), (both, 5), (narrow, 4)],
+               "cubic": [("default", 5), (both, 4), (narrow, 3)]}
+        dfs, fl_len = [2, 3, 4, 5, 6], 3
 
     def btxt(name):
-        return " | ".join("default (from the data)" if b == "default" else
-                          "explicit " + "/".join(str(v) for v in b[1:]) if b[0] == "both" else "%s bound only (%s)" % (b[0], b[1])
-                          for b in bnd[name])
-
-    def xtxt(name):
-        return ("sorted multisets of 2..%d symbols of {0,1/2,1,3/2,2,3,4,null} with default bounds; of 2..%d symbols of "
-                "{-1,0,1/2,1,3/2,2,3,4,5,null} with explicit bounds; >= 2 distinct in-range values" % L[name])
+        out = []
+        for b, n in bnd[name]:
+            if b == "default":
+                out.append("bounds from the data: x = sorted multisets of 2..%d symbols of {0,1/2,1,3/2,2,3,4,null}" % n)
+            else:
+                what = "explicit bounds %s..%s" % (b[1], b[2]) if b[0] == "both" else "%s bound only (%s)" % (b[0], b[1])
+                out.append("%s: x = sorted multisets of 2..%d symbols of {-1,0,1/2,1,3/2,2,3,4,5,null}" % (what, n))
+        return out + [">= 2 distinct in-range values required"]
 
     return [
-        Sub("bs-knots", drv_bs,
-            {"mode": "knots", "degrees": degs, "bounds": bnd["bs-knots"], "max_len": L["bs-knots"][0],
-             "max_len_explicit": L["bs-knots"][1], "followup": FINE},
+        Sub("bs-knots", drv_bs, {"mode": "knots", "degrees": degs, "bounds": bnd["bs-knots"], "followup": FINE},
             shard_depth=4,
-            bounds={"x": xtxt("bs-knots"), "degree": "0..5", "include_intercept": "False | True",
+            bounds={"x and bounds": btxt("bs-knots"), "degree": "0..5", "include_intercept": "False | True",
                     "knots": "every subset of <= 2 grid points strictly inside the bounds + every doubled knot",
-                    "bounds": btxt("bs-knots"), "extrapolation": EXTRAP,
+                    "extrapolation": EXTRAP,
                     "follow-up vectors (state re-use)": "k/8 for k=-8..40 plus a null; its in-range part plus a null"}),
-        Sub("bs-df", drv_bs,
-            {"mode": "df", "degrees": degs, "bounds": bnd["bs-df"], "max_len": L["bs-df"][0],
-             "max_len_explicit": L["bs-df"][1], "followup": COARSE},
+        Sub("bs-df", drv_bs, {"mode": "df", "degrees": degs, "bounds": bnd["bs-df"], "followup": COARSE},
             shard_depth=4,
-            bounds={"x": xtxt("bs-df"), "degree": "0..5", "include_intercept": "False | True", "df": "degree..degree+3",
-                    "bounds": btxt("bs-df"), "extrapolation": EXTRAP,
+            bounds={"x and bounds": btxt("bs-df"), "degree": "0..5", "include_intercept": "False | True",
+                    "df": "degree..degree+3", "extrapolation": EXTRAP,
                     "follow-up vectors (state re-use)": "13 dyadic points in -1..5 plus a null; its in-range part plus a null"}),
-        Sub("cubic", drv_cubic,
-            {"kinds": kinds, "bounds": bnd["cubic"], "max_len": L["cubic"][0], "max_len_explicit": L["cubic"][1],
-             "dfs": dfs, "followup": FINE, "followup_df": COARSE},
+        Sub("cubic", drv_cubic, {"kinds": ["cr", "cc"], "bounds": bnd["cubic"], "dfs": dfs, "followup": FINE,
+                                 "followup_df": COARSE},
             shard_depth=4,
-            bounds={"transforms": kinds, "x": xtxt("cubic"), "df": "%d..%d" % (dfs[0], dfs[-1]),
+            bounds={"transforms": "cr (cs is the same function object, asserted at start-up) | cc",
+                    "x and bounds": btxt("cubic"), "df": "%d..%d" % (dfs[0], dfs[-1]),
                     "knots": "every subset of <= 2 grid points strictly inside the bounds",
-                    "constraints": "None | 'center'", "bounds": btxt("cubic"), "extrapolation": EXTRAP,
-                    "follow-up vectors (state re-use)": "the recorded knots; k/8 grid (explicit knots) or 13 dyadic points "
-                                                        "(df) in -1..5 plus a null; its in-range part"}),
+                    "constraints": "None | 'center'", "extrapolation": EXTRAP,
+                    "follow-up vectors (state re-use)": "the recorded knots followed by the k/8 grid (explicit knots) or 13 "
+                                                        "dyadic points (df) in -1..5 plus a null"}),
+        Sub("formula-path", drv_formula, {"max_len": fl_len}, shard_depth=2,
+            bounds={"terms": ["%s(x, %s)" % (a, ", ".join("%s=%r" % kv for kv in k.items())) for a, k in FORMULA_TERMS],
+                    "extrapolation": EXTRAP, "x": "sorted multisets of 2..%d grid symbols" % fl_len,
+                    "new data": "13 dyadic points in -1..5 through model_spec.get_model_matrix"}),
     ]
